@@ -383,6 +383,7 @@ def _main_batch(check, args, tier, seed, t0):
     for i, v, rec in agg.violations:
         by_key.setdefault(CheckBase.vkey(v), []).append((i, v, rec))
     reported = []
+    min_deadline = time.time() + (240 if tier == 'quick' else 900)    # total wall budget for minimisation
     if by_key:
         print('violation classes (oracle @ site : runs):')
         for key, lst in list(by_key.items())[:80]:
@@ -416,7 +417,11 @@ def _main_batch(check, args, tier, seed, t0):
                 final = {'violations': [v], 'digest': first['digest']}
                 path = write_replay(check, small, key, seed, i, final)
             else:
-                small, nrep = minimise(check, rec, key)
+                left = min_deadline - time.time()
+                if left > 10:
+                    small, nrep = minimise(check, rec, key, max_wall=min(120, left))
+                else:
+                    small, nrep = rec, 0      # minimisation budget of this check used up: report unminimised
                 final = exec_isolated(check, small)
                 if not has_key(final, key):
                     small, final = rec, first
